@@ -446,32 +446,42 @@ def check(s, c0, c1, ncall, res):
 
 # ---- a side length computed without calling round_pow2 (bit tricks, a cached member) ------------------------------------
 def ev_int(t, env):
-    """exact 64-bit evaluation of a straight-line integer term over the extents (no coordinates, no loop values)"""
+    """exact evaluation of a straight-line integer term over the extents (no coordinates, no loop values), at the width of each
+    operation's type"""
     if t in env:
         return env[t]
     h = t[0]
     if h == 'ci':
-        return t[1] & M64
+        return t[1] & ((1 << t[2]) - 1)
     if h == 'op':
-        a, b = ev_int(t[3], env), ev_int(t[4], env)
+        w = ir.type_bits(t[2]) or 64
+        m = (1 << w) - 1
+        a, b = ev_int(t[3], env) & m, ev_int(t[4], env) & m
         o = t[1]
         if o == 'lshr':
-            return a >> b if b < 64 else 0
+            return a >> b if b < w else 0
         if o == 'shl':
-            return (a << b) & M64 if b < 64 else 0
+            return (a << b) & m if b < w else 0
         if o in ('udiv', 'urem'):
             if b == 0:
                 raise AnalysisBroken("division by zero in the side length")
             return a // b if o == 'udiv' else a % b
         if o in ('add', 'sub', 'mul', 'and', 'or', 'xor'):
-            return {'add': a + b, 'sub': a - b, 'mul': a * b, 'and': a & b, 'or': a | b, 'xor': a ^ b}[o] & M64
+            return {'add': a + b, 'sub': a - b, 'mul': a * b, 'and': a & b, 'or': a | b, 'xor': a ^ b}[o] & m
     if h == 'cast' and t[1] in ('zext', 'trunc', 'sext'):
         v = ev_int(t[3], env)
         bits = ir.type_bits(t[2]) or 64
+        if t[1] == 'sext':
+            iw = ir.type_bits(ir.term_type(t[3]) or '') or 64
+            v &= (1 << iw) - 1
+            if v >> (iw - 1):
+                v -= 1 << iw
         return v & ((1 << bits) - 1)
     if h == 'cmp':
-        a, b = ev_int(t[2], env), ev_int(t[3], env)
-        sx = lambda v: v - (1 << 64) if v >> 63 else v
+        w = ir.type_bits(ir.term_type(t[2]) or '') or ir.type_bits(ir.term_type(t[3]) or '') or 64
+        m = (1 << w) - 1
+        a, b = ev_int(t[2], env) & m, ev_int(t[3], env) & m
+        sx = lambda v: v - (1 << w) if v >> (w - 1) else v
         return {'eq': a == b, 'ne': a != b, 'ult': a < b, 'ule': a <= b, 'ugt': a > b, 'uge': a >= b,
                 'slt': sx(a) < sx(b), 'sle': sx(a) <= sx(b), 'sgt': sx(a) > sx(b), 'sge': sx(a) >= sx(b)}[t[1]]
     if h in ('not', 'and', 'or'):
@@ -481,8 +491,8 @@ def ev_int(t, env):
         return ev_int(t[2], env) if ev_int(t[1], env) else ev_int(t[3], env)
     if h == 'fn':
         base = t[1]
-        args = [ev_int(x, env) for x in t[3:]]
         w = ir.type_bits(t[2]) or 64
+        args = [ev_int(x, env) & ((1 << w) - 1) if not isinstance(ev_int(x, env), bool) else ev_int(x, env) for x in t[3:]]
         if base == 'llvm.ctlz':
             return w - args[0].bit_length() if args[0] else w
         if base == 'llvm.cttz':
@@ -493,7 +503,7 @@ def ev_int(t, env):
             return max(args[0], args[1])
         if base == 'llvm.umin':
             return min(args[0], args[1])
-    raise AnalysisBroken("the Hilbert side length uses an operation this evaluation does not know: %s" % ir.show(t)[:80])
+    raise AnalysisBroken("the expression uses an operation this evaluation does not know: %s" % ir.show(t)[:80])
 
 
 def rp2(m):
@@ -508,7 +518,7 @@ def extent_pairs():
     powers of two and their neighbours, for the larger extent; the other extent smaller, equal, or 1; both orders"""
     out = []
     for k in range(0, 40):
-        for m in (1 << k, (1 << k) + 1, (1 << (k + 1)) - 1):
+        for m in sorted({max(1, (1 << k) + d) for d in (-2, -1, 0, 1, 2)}):
             for o in (1, m, max(1, m // 2), max(1, m - 1)):
                 out += [(m, o), (o, m)]
     return sorted(set(out))
@@ -571,6 +581,8 @@ def virtual_side(s, ext, coords):
             return None, None, ("no loop-carried value of the walk starts from the extents (start values: %s): the curve's side does not depend on the field's size, "
                                 "so the walk cannot cover the square the storage is allocated for" % [ir.show(x) for x in inits])
         return None, None, None
+    if not step_expr(cand, set(ext)):
+        raise AnalysisBroken("Hilbert walk: the side %s is not a step expression of the extents (count-leading-zeros, shifts, constants, max): evaluation at power-of-two boundaries would not decide it" % ir.show(cand)[:100])
     vals = []
     for (e0, e1) in extent_pairs():
         v = ev_int(cand, {ext[0]: e0, ext[1]: e1})
@@ -582,3 +594,65 @@ def virtual_side(s, ext, coords):
     e0, e1, v, n = next((x for x in vals if x[2] != x[3] and x[2] != x[3] // 2), None) or next(x for x in vals if x[2] != x[3] and x[3] > 1)
     return None, None, ("for extents (%d, %d) the walk's side is derived from %d; the curve must cover a square of side %d (the larger extent rounded up to a power of two): "
                         "cells whose coordinates have higher bits set share positions with others, or positions exceed the storage" % (e0, e1, v, n))
+
+
+def step_expr(t, atoms, memo=None):
+    """Is t a STEP expression of the given atoms: they reach the result only through count-leading-zeros (of the atom, a
+    max/min of atoms, or such a value plus/minus a small constant), through comparisons of such values with constants or
+    with each other, and through max/min/select among them.  Such an expression is constant between consecutive points
+    2^k + d (|d| <= 2), which is what justifies deciding it by evaluation at those points."""
+    if memo is None:
+        memo = {}
+    if t in memo:
+        return memo[t]
+    def lin(x):            # atom, max/min of atoms, +- small constant, casts
+        if x in atoms:
+            return True
+        if x[0] == 'cast' and x[1] in ('zext', 'sext', 'trunc'):
+            return lin(x[3])
+        if x[0] == 'fn' and x[1] in ('llvm.umax', 'llvm.umin'):
+            return lin(x[3]) and lin(x[4])
+        if x[0] == 'sel':
+            return cond(x[1]) and lin(x[2]) and lin(x[3])
+        if x[0] == 'op' and x[1] in ('lshr', 'shl') and x[4][0] == 'ci' and x[4][1] <= 1:
+            return lin(x[3])          # a shift by a constant moves the boundaries from 2^k to 2^(k -+ c)
+        if x[0] == 'op' and x[1] in ('add', 'sub') and x[4][0] == 'ci':
+            wb = x[4][2]
+            c = x[4][1] if x[4][1] < (1 << (wb - 1)) else (1 << wb) - x[4][1]
+            return c <= 2 and lin(x[3])
+        return False
+    def cond(c):
+        if c[0] in ('not',):
+            return cond(c[1])
+        if c[0] in ('and', 'or'):
+            return cond(c[1]) and cond(c[2])
+        if c[0] == 'cmp':
+            return all(lin(y) or free(y) for y in (c[2], c[3]))
+        return c in (ir.TRUE, ir.FALSE)
+    def free(x):           # no dependence on the atoms except through ctlz of a linear value / conditions of the allowed kind
+        if x in atoms:
+            return False
+        if x[0] in ('ci',):
+            return True
+        if x[0] == 'fn' and x[1] == 'llvm.ctlz':
+            return lin(x[3])
+        if x[0] == 'fn' and x[1] in ('llvm.umax', 'llvm.umin'):
+            return all(free(y) for y in x[3:5])
+        if x[0] == 'sel':
+            return cond(x[1]) and free(x[2]) and free(x[3])
+        if x[0] == 'op':
+            return free(x[3]) and free(x[4])
+        if x[0] == 'cast':
+            return free(x[3])
+        if x[0] == 'cmp':
+            return cond(x)
+        if x[0] == 'call' and (x[1] or "").startswith(("_ZN6covfie7utility10round_pow2", "_ZN6covfie7utility4ipow")):
+            return all(free(y) or lin(y) for y in x[3:])
+        if x[0] == 'extractvalue':
+            return free(x[1])
+        if x[0] in ('fn', 'call') and (x[1] or "").startswith("llvm.umul.with.overflow"):
+            return all(free(y) for y in x[3:5])
+        return False
+    r = free(t) or lin(t)
+    memo[t] = r
+    return r
